@@ -390,7 +390,8 @@ def t_r4(p: Project, rep: Report):
         raise AnalysisError("Integer.enforce_length not found")
     vp = params_of(fn)[1]
     guard_table(p, rep, "T-R4", "Integer.enforce_length", i, fn, {"raise": f"self.length is not None and {vp} >= 10 ** self.length"},
-                lambda a: ("10 **" in a or "10**" in a), tloc(p, fn))
+                # also mis-spelt: counting the characters of str(value) - the minus sign of a negative value is not a digit
+                lambda a: ("10 **" in a or "10**" in a or f"len(str({vp}))" in a.replace(" ", "")), tloc(p, fn))
 
 
 def t_r5(p: Project, rep: Report):
